@@ -29,7 +29,10 @@ META = dict(
                "other three analyzers (unreachable code, infinite block, whitespace) a table regenerated from analyzer.py by "
                "an AST scan shows they contain no partial operation (theorem over the table). Tied to the code by "
                "differential execution of the real SemanticCheckAnalyzer and the real lint on generated and exhaustive "
-               "small-scope methods; the oracle checks the named item kind per offending line in the lint output.",
+               "small-scope methods; the oracle checks the named item kind per offending line in the lint output. Theorem "
+               "lint_history_is_pure: over any protocol-conforming history of registrations, definition updates and lints "
+               "each lint equals the pure function of (current definition, current text); a history stream drives the real "
+               "lint with one engine id / one document while the tag and command sets change.",
     level_note="The model follows the code with fixes/C19-undefined-tag-falls-through.diff (committed) and "
                "fixes/C19-tag-unit-unknown-to-unit-table.diff (proposed: a tag published with a unit this installation's "
                "unit table lacks made the analysis raise; on a tree without it the check reports that violation). Hypotheses: "
@@ -42,7 +45,7 @@ META = dict(
               "checked by kernel evaluation) + differential correspondence (exhaustive small scope + random + malformed text)",
 )
 MODULE = "OPM.Properties.C19"
-REQUIRED = ["OPM.C19.analyzeAll_total", "OPM.C19.lintAll_keeps_all_diagnostics",
+REQUIRED = ["OPM.C19.analyzeAll_total", "OPM.C19.lintAll_keeps_all_diagnostics", "OPM.C19.lint_history_is_pure",
             "OPM.C19.unmodelled_analyzers_have_no_partial_operation",
             "OPM.C19.analyze_total", "OPM.C19.lint_keeps_all_diagnostics", "OPM.C19.undefined_tag_flagged",
             "OPM.C19.undefined_simulate_off_tag_flagged", "OPM.C19.undefined_command_flagged",
@@ -158,7 +161,24 @@ ANALYZER_LETTERS = (("IndentationCheckAnalyzer", "I"), ("ThresholdCheckAnalyzer"
                     ("SimulateCheckAnalyzer", "S"), ("CommandCheckAnalyzer", "M"), ("MacroCheckAnalyzer", "X"))
 
 
-def observe(case: dict) -> dict:
+def canonical_diagnostics(diags) -> tuple[str, set | None, set]:
+    """lint's answer: 'generic' | 'none' | `id:line:E:fix …` for the modelled analyzers; the lines / (line, code) pairs
+    that carry an error diagnostic (every analyzer)."""
+    if any(d.get("code") == "Parse error" for d in diags):
+        return "generic", None, set()
+    out = []
+    for d in diags:
+        if d.get("code") in MESSAGE_TO_ID:
+            sev_err = d.get("severity") == 1
+            fix = (d.get("data") or {}).get("type") == "fix-typo"
+            out.append(f"{MESSAGE_TO_ID[d['code']]}:{d['range']['start']['line']}:"
+                       f"{'E' if sev_err else '-'}:{'fix' if fix else '-'}")
+    return (" ".join(out) or "none",
+            {d["range"]["start"]["line"] for d in diags if d.get("severity") == 1},
+            {(d["range"]["start"]["line"], d.get("code")) for d in diags if d.get("severity") == 1})
+
+
+def observe(case: dict, editor: bool = True) -> dict:
     """Run parser + SemanticCheckAnalyzer + lint on the case; returns op lines for the model and the observations."""
     from Levenshtein import ratio
     import openpectus.lang.model.ast as p
@@ -174,7 +194,8 @@ def observe(case: dict) -> dict:
         method = ParserMethod.from_pcode(case["text"])
         program = create_method_parser(method, uod_command_names=[]).parse_method(method)
     except Exception as e:  # noqa: BLE001
-        obs.update(ops=ops + ["analyzeall", "lintall"], analysis="err:other:parse:" + type(e).__name__, exc=e, site="parser")
+        obs.update(ops=ops + ["analyzeall", "lintall"], analysis="err:other:parse:" + type(e).__name__, exc=e, site="parser",
+                   tag_ops=ops, cmd_ops=[], sim_ops=[], node_ops=[])
         obs["lint"] = "generic"
         return obs
     # --- the analysis itself; `MacroNode.macro_calling_macro` (C41) is a parameter of the model: record what it answers
@@ -255,6 +276,9 @@ def observe(case: dict) -> dict:
             encb(bool(node.indent_error)), encb(isinstance(node, p.WhitespaceNode)),
             oenc(node.threshold_part if node.threshold is not None else None), str(parent), mk, enc(mname), encb(mrec)]))
     obs["ops"] = ops + cmd_ops + sim_ops + node_ops + ["analyzeall", "lintall"]
+    obs.update(tag_ops=ops, cmd_ops=cmd_ops, sim_ops=sim_ops, node_ops=node_ops)
+    if not editor:   # the caller drives `lint` itself (history stream) and must not have its caches touched
+        return obs
     # the editor path
     lsp_analysis.create_analysis_input.cache_clear()
     lsp_analysis.fetch_uod_info = lambda _eid: uod
@@ -262,20 +286,7 @@ def observe(case: dict) -> dict:
                    source=case["text"])
     try:
         diags = lsp_analysis.lint(doc, engine_id="eng_id")
-        if any(d.get("code") == "Parse error" for d in diags):
-            obs["lint"] = "generic"
-        else:
-            out = []
-            for d in diags:
-                if d.get("code") in MESSAGE_TO_ID:
-                    sev_err = d.get("severity") == 1
-                    fix = (d.get("data") or {}).get("type") == "fix-typo"
-                    out.append(f"{MESSAGE_TO_ID[d['code']]}:{d['range']['start']['line']}:"
-                               f"{'E' if sev_err else '-'}:{'fix' if fix else '-'}")
-            obs["lint"] = " ".join(out) or "none"
-            # what the editor shows: the lines that carry an error diagnostic (every analyzer, not only the modelled ones)
-            obs["lint_error_lines"] = {d["range"]["start"]["line"] for d in diags if d.get("severity") == 1}
-            obs["lint_errors"] = {(d["range"]["start"]["line"], d.get("code")) for d in diags if d.get("severity") == 1}
+        obs["lint"], obs["lint_error_lines"], obs["lint_errors"] = canonical_diagnostics(diags)
     except Exception as e:  # noqa: BLE001
         obs["lint"] = "err:lint-raised:" + type(e).__name__
     return obs
@@ -606,6 +617,170 @@ def random_cases(ctx: Check) -> list[dict]:
 
 
 # ----------------------------------------------------------------------------------------------------------
+# history stream: the same document linted again and again while the engine's tag / command set changes
+
+H_TAGS = ["Pressure", "Level", "Flow", "Temp", "pH"]
+H_CMDS = ["Fill", "Drain", "Mix", "Heat"]
+
+
+def h_line(rng, tags_pool, cmds_pool) -> tuple[str, tuple[str, str] | None, bool]:
+    """(text, (kind, name) reference or None, opens a body)"""
+    r = rng.random()
+    if r < 0.3:
+        t = rng.choice(tags_pool)
+        return f"{rng.choice(['Watch', 'Alarm'])}: {t} > {rng.choice(['1', '3', '7.5'])}", ("tag", t), True
+    if r < 0.45:
+        t = rng.choice(tags_pool)
+        return rng.choice([f"Simulate: {t} = 2", f"Simulate off: {t}"]), ("tag", t), False
+    if r < 0.8:
+        c = rng.choice(cmds_pool)
+        return rng.choice([c, f"{c}: 5", f"{c}: open"]), ("cmd", c), False
+    return rng.choice(["Mark: a", "# note", "", "Alarm: Level <", "Mark: b"]), None, False
+
+
+def h_text(rng, n: int) -> tuple[str, list[dict]]:
+    lines, refs = [], []
+    while len(lines) < n:
+        t, ref, body = h_line(rng, H_TAGS + ["Xyzzy"], H_CMDS + ["Frobnicate"])
+        if ref:
+            refs.append({"line": len(lines), "kind": ref[0], "name": ref[1]})
+        lines.append(t)
+        if body:
+            lines.append("    Mark: body")
+    return "\n".join(lines), refs
+
+
+def history_cases(ctx: Check) -> list[dict]:
+    """Steps: register (cache_clear, no definition) · uodinfo (definition) · lint (same uri; the version changes only
+    when the text does).  The sets change between lints of the SAME document; texts change with the set fixed."""
+    rng = ctx.rng
+    out = []
+    for _ in range(ctx.n(60, 1500)):
+        steps: list[dict] = []
+        text, refs = h_text(rng, rng.randrange(2, 6))
+        version = 1
+
+        def new_set():
+            return ([[t, None] for t in rng.sample(H_TAGS, rng.randrange(1, len(H_TAGS) + 1))],
+                    [[c, None] for c in rng.sample(H_CMDS, rng.randrange(1, len(H_CMDS) + 1))])
+        steps.append({"op": "register"})
+        if rng.random() < 0.15:
+            steps.append({"op": "lint", "text": text, "refs": refs, "version": version})   # before the UodInfo arrives
+        tags, cmds = new_set()
+        steps.append({"op": "uodinfo", "tags": tags, "cmds": cmds})
+        for _ in range(rng.randrange(2, 6)):
+            r = rng.random()
+            if r < 0.45:      # the engine re-registers with another definition; the document is untouched
+                steps.append({"op": "register"})
+                if rng.random() < 0.2:
+                    steps.append({"op": "lint", "text": text, "refs": refs, "version": version})
+                if rng.random() < 0.5:   # drop / add one name the text may use
+                    tags = [t for t in tags if rng.random() < 0.6] or [[rng.choice(H_TAGS), None]]
+                    cmds = [c for c in cmds if rng.random() < 0.6] or [[rng.choice(H_CMDS), None]]
+                else:
+                    tags, cmds = new_set()
+                steps.append({"op": "uodinfo", "tags": tags, "cmds": cmds})
+            elif r < 0.65:    # the user edits the text; the set is fixed
+                text, refs = h_text(rng, rng.randrange(2, 6))
+                version += 1
+            steps.append({"op": "lint", "text": text, "refs": refs, "version": version})   # open / save / change
+        out.append({"steps": steps, "kind": "history"})
+    # the minimal shape, for every kind of reference
+    for ref_line, kind in (("Watch: Pressure > 3\n    Mark: a", "tag"), ("Simulate off: Pressure", "tag"),
+                          ("Simulate: Pressure = 2", "tag"), ("Fill: 5", "cmd"), ("Fill", "cmd")):
+        name = "Pressure" if kind == "tag" else "Fill"
+        refs = [{"line": 0, "kind": kind, "name": name}]
+        full = {"op": "uodinfo", "tags": [["Pressure", None], ["Level", None]], "cmds": [["Fill", None], ["Drain", None]]}
+        less = {"op": "uodinfo", "tags": [["Level", None]], "cmds": [["Drain", None]]}
+        lint = {"op": "lint", "text": ref_line, "refs": refs, "version": 7}
+        out.append({"steps": [{"op": "register"}, full, lint, {"op": "register"}, less, lint, lint,
+                              {"op": "register"}, full, lint], "kind": "history"})
+        out.append({"steps": [{"op": "register"}, less, lint, {"op": "register"}, full, lint], "kind": "history"})
+    return out
+
+
+def observe_history(case: dict, index: int) -> dict:
+    """Drive the real `lint` through the history (one engine id, one uri) the way production changes its inputs."""
+    import openpectus.protocol.models as ProMdl
+    from openpectus.lsp import lsp_analysis
+    from pylsp.workspace import Document, Workspace
+    engine_id, uri = f"eng-history-{index}", f"file://workspace/history-{index}"
+    ws = Workspace(root_uri="", endpoint=None, config=None)
+    current = {"uod": None}
+    saved_fetch = lsp_analysis.fetch_uod_info
+    lsp_analysis.fetch_uod_info = lambda _eid: current["uod"]
+    lsp_analysis.create_analysis_input.cache_clear()
+    ops: list[str] = []
+    outs: list[str] = []
+    lints: list[dict] = []
+    cur_tags: list = []
+    cur_cmds: list = []
+    defined = False
+    doc = None
+    try:
+        for st in case["steps"]:
+            if st["op"] == "register":
+                # handle_RegisterEngineMsg: fresh engine data (no uod definition yet) + create_analysis_input.cache_clear()
+                current["uod"] = None
+                lsp_analysis.create_analysis_input.cache_clear()
+                defined = False
+                ops.append("sess-register")
+                outs.append("ok")
+            elif st["op"] == "uodinfo":
+                cur_tags, cur_cmds = st["tags"], st["cmds"]
+                current["uod"] = ProMdl.UodDefinition(
+                    commands=[ProMdl.CommandDefinition(name=n, validator=v, docstring="") for n, v in cur_cmds],
+                    system_commands=[], tags=[ProMdl.TagDefinition(name=n, unit=u) for n, u in cur_tags])
+                defined = True
+                ref = observe({"text": "", "tags": cur_tags, "cmds": cur_cmds}, editor=False)
+                ops += ref["tag_ops"] + ref["cmd_ops"] + ["sess-uodinfo"]
+                outs += ["ok"] * (len(ref["tag_ops"]) + len(ref["cmd_ops"]) + 1)
+            else:
+                ref = observe({"text": st["text"], "tags": cur_tags if defined else [], "cmds": cur_cmds if defined else []},
+                              editor=False)
+                ops += ref["sim_ops"] + ref["node_ops"] + ["sess-lint"]
+                if doc is None or doc.source != st["text"]:
+                    doc = Document(uri=uri, workspace=ws, source=st["text"], version=st["version"])
+                try:
+                    diags = lsp_analysis.lint(doc, engine_id=engine_id)
+                    text, err_lines, errs = canonical_diagnostics(diags)
+                except Exception as e:  # noqa: BLE001
+                    text, err_lines, errs = "err:lint-raised:" + type(e).__name__, None, set()
+                outs += ["ok"] * (len(ref["sim_ops"]) + len(ref["node_ops"])) + [text]
+                lints.append({"step": len(lints), "text": st["text"], "refs": st["refs"], "defined": defined,
+                              "tags": [n for n, _ in cur_tags], "cmds": [n for n, _ in cur_cmds],
+                              "lint": text, "lint_errors": errs})
+    finally:
+        lsp_analysis.fetch_uod_info = saved_fetch
+        lsp_analysis.create_analysis_input.cache_clear()
+    return {"ops": ops, "outs": outs, "lints": lints}
+
+
+def judge_history(case: dict, obs: dict) -> list[Failure]:
+    """Per lint call, w.r.t. the CURRENT set: nothing generic while a definition is there, every reference to a name
+    that is undefined now carries its error on its line."""
+    pub = {"steps": case["steps"]}
+    fails = []
+    for ln in obs["lints"]:
+        if not ln["defined"]:
+            continue   # between registration and UodInfo there is no definition to analyse against
+        if ln["lint"] == "generic" or ln["lint"].startswith("err"):
+            fails.append(Failure("history:lint-replaces-diagnostics", pub,
+                                 f"lint #{ln['step']} returned {ln['lint']} although a definition is available"))
+            continue
+        for r in ln["refs"]:
+            known = ln["tags"] if r["kind"] == "tag" else ln["cmds"]
+            code = "Undefined tag" if r["kind"] == "tag" else "Undefined command"
+            if r["name"] not in known and (r["line"], code) not in ln["lint_errors"]:
+                what = "undefined-tag" if r["kind"] == "tag" else "undefined-command"
+                fails.append(Failure(f"history:no-diagnostic-on-line:{what}", pub,
+                                     f"lint #{ln['step']} of {ln['text']!r} with tags {ln['tags']} / commands {ln['cmds']}: "
+                                     f"line {r['line']} refers to {r['name']!r}, which is not defined now, and carries no "
+                                     f"{code!r} error (error diagnostics: {sorted(ln['lint_errors'])})"))
+    return fails
+
+
+# ----------------------------------------------------------------------------------------------------------
 # oracle (independent of the Lean model)
 
 def judge(case: dict, obs: dict) -> list[Failure]:
@@ -659,7 +834,10 @@ def run(ctx: Check) -> int:
                 "random methods of 1–8/14 lines (Watch/Alarm with bodies, Simulate, Simulate off, commands with "
                 "valid/invalid/no arguments, thresholds, blocks, non-recursive macros) against random tag/command sets; "
                 "(3) the same offending reference repeated on 2–3 lines (and, inside the random methods, earlier offending lines "
-                "re-used with probability 0.2); (4) malformed text (mutated lines, random unicode lines, odd indentation). "
+                "re-used with probability 0.2); (4) histories: one engine id and one document (same uri, version, text) linted "
+                "repeatedly while the engine re-registers with other tag / command sets (register = cache_clear + no "
+                "definition, UodInfo = new definition), and edits of the text with the set fixed, oracle per lint call "
+                "w.r.t. the current set; (5) malformed text (mutated lines, random unicode lines, odd indentation). "
                 "The oracle looks at the lint output per offending line. Non-trivial = the analyzers "
                 "produce at least one item or raise.")
     cases = [dict(c["case"], kind="corpus") for c in load_corpus("C19")] + exhaustive_cases() + repeated_cases() \
@@ -698,6 +876,23 @@ def run(ctx: Check) -> int:
             ctx.count("item:" + it.split(":")[1] + (":fix" if it.endswith(":fix") else ""))
         for f in judge(c, o):
             ctx.fail(f)
+    # -- stream "history": one engine id, one document, linted repeatedly while the definition changes
+    hcases = history_cases(ctx)
+    hobs = {id(c): observe_history(c, i) for i, c in enumerate(hcases)}
+    hpub = [{"steps": c["steps"]} for c in hcases]
+    hby = {id(p): c for p, c in zip(hpub, hcases)}
+    hout, hmod = ctx.correspond(
+        "history", "Analyzer", hpub, lambda p: hobs[id(hby[id(p)])]["ops"], lambda p: hobs[id(hby[id(p)])]["outs"],
+        nontrivial=lambda p, o: sum(1 for st in p["steps"] if st["op"] == "uodinfo") > 1, impl_timeout=60.0)
+    for c in hcases:
+        o = hobs[id(c)]
+        ctx.count("history:lints", len(o["lints"]))
+        ctx.count("history:definition-changes", sum(1 for st in c["steps"] if st["op"] == "uodinfo"))
+        ctx.count("history:undefined-references-now",
+                  sum(1 for ln in o["lints"] if ln["defined"] for r in ln["refs"]
+                      if r["name"] not in (ln["tags"] if r["kind"] == "tag" else ln["cmds"])))
+        for f in judge_history(c, o):
+            ctx.fail(f)
     ctx.exhaustive = False
     ctx.extra["exhaustive_scopes"] = ["single-statement methods: keyword × tag reference × operator × rhs × 3 tag "
                                       "environments; all Simulate-off forms; command name × argument forms"]
@@ -720,6 +915,26 @@ def replay(obj) -> int:
     if c is None:
         print(json.dumps(obj, indent=1)[:4000])
         return 0
+    if "steps" in c:   # a case of the history stream
+        o = observe_history(c, 0)
+        m = drive("Analyzer", [o["ops"]])
+        mi = [x for op, x in zip(o["ops"], m[0]) if op == "sess-lint"]
+        k = 0
+        for st in c["steps"]:
+            if st["op"] == "register":
+                print("register            (engine re-registers: no definition, create_analysis_input.cache_clear())")
+            elif st["op"] == "uodinfo":
+                print(f"uodinfo             tags {[n for n, _ in st['tags']]}  commands {[n for n, _ in st['cmds']]}")
+            else:
+                ln = o["lints"][k]
+                print(f"lint v{st['version']} {st['text']!r}\n    implementation: {ln['lint']}\n    model:          {mi[k]}")
+                k += 1
+        fails = judge_history(c, o)
+        for f in fails:
+            print(f"oracle: {f.key}: {f.detail}")
+        if not fails:
+            print("oracle: property holds on this history")
+        return 1 if fails else 0
     c.setdefault("expect", [])
     o = observe(c)
     m = drive("Analyzer", [o["ops"], o["ops"][:-2] + ["analyzeallold", "lintallold"]])
